@@ -420,6 +420,21 @@ def F41(fil):
     return abs(off - lead) > 1e-3, f"valid-samples dedispersion with ref_freq='min' drops the first {lead} samples; tstart advanced by {off:.3f} samples"
 
 
+def F42(fil):
+    from sigpyproc.core import kernels
+    n = 2**21
+    a = np.zeros(1, dtype=kernels.moments_dtype)
+    b = np.zeros(1, dtype=kernels.moments_dtype)
+    c = np.zeros(1, dtype=kernels.moments_dtype)
+    # two halves with different means and the same spread, given as exact moment records (no data needed)
+    for rec, mean in ((a, 0.0), (b, 2.0)):
+        rec["count"], rec["m1"], rec["m2"], rec["m4"] = n // 2, mean, n // 2, 3 * (n // 2)
+    kernels.add_online_moments(a, b, c)
+    kurt = float(c["m4"][0] * n / c["m2"][0] ** 2 - 3)
+    # exact: m2 = 2n, m4 = 3n + n + 6n = 10n, kurtosis = 10/4 - 3
+    return abs(kurt + 0.5) > 1e-3, f"merged kurtosis of two unit-variance halves of 2**20 samples with means 0 and 2: {kurt:.3f} (exact value -0.5)"
+
+
 ALL = {k: v for k, v in globals().items() if k.startswith("F") and k[1:].isdigit()}
 
 
